@@ -122,7 +122,9 @@ Definition entry (sel : Z) (toks : list Z) : list Z :=
              let policy := nth 2 job 0 in
              let pods' := map (fun p => (nth 0 p 0, Z.to_pos (nth 1 p 1), nth 2 p 0)) pods in
              let '(hn, real) := trace_session d leaves in
-             let '(subs, jb) := recover_all hn real policy pods' in
+             (* a view that is not ready: OpenSession skips the recovery *)
+             let pods'' := if Z.eqb (nth 5 job 0) 0 then pods' else map (fun p => (0, snd (fst p), snd p)) pods' in
+             let '(subs, jb) := recover_all hn real policy pods'' in
              tag 1 ++ eLca jb ++
              tag 2 ++ eList (fun rs => fst rs :: eOptPos (snd rs)) subs
          | None => bad_input end
@@ -151,6 +153,12 @@ Definition entry (sel : Z) (toks : list Z) : list Z :=
                           let* limit := dZ in let* r := dOptPos in let* nodes := dList dPos in
                           ret (hn, real, limit, r, nodes)) toks with
            | Some (hn, real, limit, r, nodes) => eBool (law_recorded hn real limit r nodes) | None => bad_input end
+  | 113 => match run_dec (let* hn := dList dInfo in let* real := dList (dPair dPos (dList dPos)) in
+                          let* limit := dZ in let* r := dOptPos in let* nodes := dList dPos in
+                          ret (hn, real, limit, r, nodes)) toks with
+           | Some (hn, real, _, r, nodes) => eBool (law_recorded_lowest hn real r nodes) | None => bad_input end
+  | 110 => match run_dec (dPair dBool dZ) toks with
+           | Some (nr, k) => eBool (law_not_ready_no_bind nr k) | None => bad_input end
   | 106 => match run_dec (let* objs := dList dObj in let* v := dView in ret (objs, v)) toks with
            | Some (objs, v) => eBool (law_bad_not_ready objs v) | None => bad_input end
   | 107 => match run_dec dBool toks with
